@@ -842,3 +842,379 @@ B('h_report_mw_method_resets_other_instance', ['C19'], 'R19.d',
         ret['reset'] = True
         return ret
 '''))
+
+# ------------------------------------------------------------------------------------------------ round 4 (v-refactorings)
+# (1) the try/except/finally of StatsMiddleware.request as a one-yield context manager that hands a collector (the append of a
+#     local one-element list) to the block and reads the response back from the list behind the yield
+_ST_IMPORT = 'import datetime\n'
+_ST_CM_IMPORT = 'import datetime\nfrom contextlib import contextmanager\n'
+
+
+def _cm_request(pre='', read="            resp = responses[0]\n", handler_tail='            raise\n', table='self.route_hits', give='responses.append',
+                block='            resp = next()\n            got_response(resp)\n'):
+    return [(STATS, _ST_IMPORT, _ST_CM_IMPORT),
+            (STATS, _ST_REQUEST, '''        with self._hit_recorded(request, _route) as got_response:
+''' + block + '''        return resp
+
+    @contextmanager
+    def _hit_recorded(self, request, _route):
+        start_time = time.time()
+        responses = []
+''' + pre + '''        try:
+            yield ''' + give + '''
+''' + read + '''            resp_status = repr(getattr(resp, 'status_code', resp.__class__.__name__))
+            resp_mime_type = (getattr(resp, 'content_type', None) or '').partition(';')[0]
+        except Exception as e:
+            resp_status = repr(getattr(e, 'code', e.__class__.__name__))
+            resp_mime_type = getattr(e, 'content_type', '').partition(';')[0]
+''' + handler_tail + '''        finally:
+            end_time = time.time()
+            duration = end_time - start_time
+            hit = Hit(start_time,
+                      request.path,
+                      _route.pattern,
+                      resp_status,
+                      duration,
+                      resp_mime_type)
+            ''' + table + '''[_route][resp_status].add(hit)
+        return
+''')]
+
+
+T('h4_request_as_context_manager', ['C19', 'C15'], *_cm_request())
+T('h4_request_as_context_manager_last_index', ['C19', 'C15'], *_cm_request(read="            resp = responses[-1]\n"))
+B('h4_cm_table_fetched_before_the_block', ['C19'], 'R19.a',
+  *_cm_request(pre='        table = self.route_hits\n', table='table'))
+B('h4_cm_swallows_the_exception', ['C19'], 'R19.a', *_cm_request(handler_tail=''))
+B('h4_cm_status_of_something_else', ['C19'], 'R19.a',
+  *_cm_request(read="            resp = responses\n"))
+B('h4_cm_records_in_the_block_too', ['C19'], 'R19.a',
+  *_cm_request(block='            resp = next()\n            got_response(resp)\n'
+                     '            self.route_hits[_route][repr(resp.status_code)].add(Hit(0.0, request.path, _route.pattern, repr(resp.status_code), 0.0, \'\'))\n'))
+# the collector is called twice: the list is no longer known to hold the response first (not followed: no verdict may be 'fine')
+B('h4_cm_collector_fed_twice', ['C19'], 'R19.a',
+  *_cm_request(block='            got_response(request)\n            resp = next()\n            got_response(resp)\n'))
+
+# (2) Reservoir.add as a template method: count, sample, then a do-nothing hook the subclass overrides (no add() of its own)
+_ST_SUB_ADD = '''    def add(self, hit):
+        super(RouteStatReservoir, self).add(hit)
+        self.last_hit = hit.start_time
+        self.total_duration += hit.duration
+'''
+_ST_TEMPLATE_ADD = '''    def add(self, val):
+        self._total_count += 1
+        self._sample(val)
+        self._note_added(val)
+        return
+
+    def _sample(self, val):
+        if len(self._data) < self._cap:
+            self._data.append(val)
+            return
+
+        idx = fast_randint(0, self._total_count)
+        if idx < self._cap:
+            self._data[idx] = val
+        return
+
+    def _note_added(self, val):
+        return
+'''
+
+
+def _template(hook_body='', add=_ST_TEMPLATE_ADD):
+    return [(STATS, _ST_ADD, add),
+            (STATS, _ST_SUB_ADD, '''    def _note_added(self, hit):
+''' + hook_body + '''        self.last_hit = hit.start_time
+        self.total_duration += hit.duration
+''')]
+
+
+T('h4_add_template_method', ['C19', 'C15'], *_template())
+T('h4_add_template_method_hook_first', ['C19'],
+  *_template(add=_ST_TEMPLATE_ADD.replace('        self._sample(val)\n        self._note_added(val)\n', '        self._note_added(val)\n        self._sample(val)\n')))
+B('h4_template_hook_delegates_again', ['C19'], 'R19.c', *_template(hook_body='        super(RouteStatReservoir, self).add(hit)\n'))
+B('h4_template_hook_calls_base_add', ['C19'], 'R19.c', *_template(hook_body='        Reservoir.add(self, hit)\n'))
+B('h4_template_hook_re_adds_on_self', ['C19'], 'R19.c',
+  *_template(hook_body='        if self.last_hit is None:\n            self.add(hit)\n'))
+B('h4_template_counts_in_hook_too', ['C19'], 'R19.c', *_template(hook_body='        self._total_count += 1\n'))
+B('h4_template_sample_skips_count', ['C19'], 'R19.c',
+  *_template(add=_ST_TEMPLATE_ADD.replace('        self._total_count += 1\n        self._sample(val)\n',
+                                          '        if len(self._data) < self._cap:\n            self._total_count += 1\n        self._sample(val)\n')))
+B('h4_override_adds_on_self', ['C19'], 'R19.c',
+  (STATS, '        super(RouteStatReservoir, self).add(hit)\n', '        super(RouteStatReservoir, self).add(hit)\n        if hit.duration > 1e9:\n            self.add(hit)\n'))
+
+# (3) the injectables of a bound route assembled in one helper method (store under the key instead of a dict display)
+_RT_EXECUTE = '''    def execute(self, request, **kwargs):
+        injectables = {'_route': self,
+                       'request': request,
+                       '_application': self.bound_apps[-1]}
+        injectables.update(self.resources)
+        injectables.update(kwargs)
+        return inject(self._execute, injectables)
+'''
+_RT_EXECUTE_ERR = '''        injectables = {'_route': self,
+                       '_error': _error,
+                       'request': request,
+                       '_application': self.bound_apps[-1]}
+        injectables.update(self.resources)
+        injectables.update(kwargs)
+'''
+
+
+def _inj_helper(app="self.bound_apps[-1]"):
+    return [(R, _RT_EXECUTE, '''    def _make_inj(self, request, overrides, **extra):
+        injectables = {'_route': self}
+        injectables.update(extra)
+        injectables['request'] = request
+        injectables['_application'] = ''' + app + '''
+        injectables.update(self.resources)
+        injectables.update(overrides)
+        return injectables
+
+    def execute(self, request, **kwargs):
+        injectables = self._make_inj(request, kwargs)
+        return inject(self._execute, injectables)
+'''), (R, _RT_EXECUTE_ERR, '        injectables = self._make_inj(request, kwargs, _error=_error)\n')]
+
+
+T('h4_injectables_in_helper_method', ['C19'], *_inj_helper())
+T('h4_injectables_update_keyword', ['C19'],
+  (R, _RT_EXECUTE, _RT_EXECUTE.replace("""        injectables = {'_route': self,
+                       'request': request,
+                       '_application': self.bound_apps[-1]}
+""", """        injectables = {'_route': self, 'request': request}
+        injectables.update(_application=self.bound_apps[-1])
+""")))
+
+# ------------------------------------------------------------------------------------------------ round 4: deepening C15
+CTX = 'clastic/middleware/context.py'
+URL = 'clastic/middleware/url.py'
+_DUMMY_TRY = '''        try:
+            ret = next()
+        except Exception as e:
+            if self.verbose:
+                print(name, '- uhoh:', repr(e))
+            raise
+'''
+_DUMMY_TAIL = "        if self.verbose:\n            print(name, '- hooray:', repr(ret))\n        return ret\n"
+_CC_HEAD = "        resp = next()\n        if hasattr(resp, 'cache_control'):\n"
+_GZ_VARY = "        resp.vary.add('Accept-Encoding')\n"
+_GZ_SIZE = "        if len(comp_content) >= len(resp.data):\n            return resp\n"
+_GZ_STORES = "        resp.response = [comp_content]\n        resp.content_length = len(comp_content)\n        resp.content_encoding = 'gzip'\n"
+_PF_TRIGGER = "        if not request.args.get(self.get_param_name):\n            return next()\n"
+_CTX_GUARD = "                if not self.overwrite and arg in context:\n                    continue\n"
+_CTX_STORE = "                context[arg] = kwargs.get(arg, self.defaults.get(arg))\n"
+_CK_SAVE = "        cookie.save_cookie(response, **save_cookie_kwargs)\n"
+
+# the object returned is the one next() returned
+B('h4_result_rebuilt_before_return', ['C15'], 'R15.b', (C, _DUMMY_TAIL, "        ret = BaseResponse(ret.response, ret.status_code)\n        return ret\n"))
+B('h4_result_copied_before_return', ['C15'], 'R15.b', (CK, 'import time\n', 'import time\nimport copy\n'),
+  (CK, _CK_SAVE + '        return response\n', _CK_SAVE + '        response = copy.copy(response)\n        return response\n'))
+B('h4_result_default_reaches_return', ['C15'], 'R15.b',
+  (C, _DUMMY_TRY, "        ret = None\n        try:\n            if not self.verbose:\n                ret = next()\n        except Exception as e:\n            raise\n"))
+T('h4_result_initialised_before_try', ['C15', 'C19'], (C, _DUMMY_TRY, '        ret = None\n' + _DUMMY_TRY))
+T('h4_result_returned_under_alias', ['C15'], (C, _DUMMY_TAIL, "        if self.verbose:\n            print(name, '- hooray:', repr(ret))\n        out = ret\n        return out\n"))
+# the rest of the chain runs once
+B('h4_next_called_twice', ['C15'], 'R15.b', (C, "        try:\n            ret = next()\n", "        try:\n            next()\n            ret = next()\n"))
+B('h4_next_again_for_streamed', ['C15'], 'R15.b', (GZ, "        if resp.is_streamed:\n            return resp  # TODO\n", "        if resp.is_streamed:\n            return next()\n"))
+B('h4_next_in_a_retry_loop', ['C15'], 'R15.b',
+  (URL, "        return next(**{self.provided_name: request.script_root})\n",
+        "        for attempt in (1, 2):\n            resp = next(**{self.provided_name: request.script_root})\n        return resp\n"))
+T('h4_next_result_named', ['C15'], (URL, "        return next(**{self.provided_name: request.script_root})\n",
+                                    "        resp = next(**{self.provided_name: request.script_root})\n        return resp\n"))
+# next() gets no replacement for what the hook received
+B('h4_next_given_other_context', ['C15'], 'R15.b',
+  (CTX, _CTX_STORE + "            return next()\n", _CTX_STORE + "            return next(context=dict(self.defaults))\n"))
+B('h4_next_given_other_request', ['C15'], 'R15.b', (GZ, "        resp = next()\n", "        resp = next(request=request.__class__(dict(request.environ)))\n"))
+# the request is handed on as it came
+B('h4_request_environ_written', ['C15'], 'R15.b', (GZ, "        resp = next()\n", "        request.environ['PATH_INFO'] = '/'\n        resp = next()\n"))
+B('h4_request_attribute_rebound', ['C15'], 'R15.b', (PF, _PF_TRIGGER, "        request.args = request.args.copy()\n" + _PF_TRIGGER))
+B('h4_request_environ_popped_through_alias', ['C15'], 'R15.b',
+  (GZ, "        resp = next()\n", "        env = request.environ\n        env.pop('HTTP_IF_NONE_MATCH', None)\n        resp = next()\n"))
+T('h4_request_environ_read_through_alias', ['C15'], (GZ, "        resp = next()\n", "        env = request.environ\n        env.get('HTTP_IF_NONE_MATCH')\n        resp = next()\n"))
+# what describes the body is written only under the trigger
+B('h4_charset_set_on_every_response', ['C15'], 'R15.b', (CC, _CC_HEAD, "        resp = next()\n        resp.charset = 'latin-1'\n        if hasattr(resp, 'cache_control'):\n"))
+B('h4_content_type_header_popped', ['C15'], 'R15.b', (CC, _CC_HEAD, "        resp = next()\n        resp.headers.pop('Content-Type', None)\n        if hasattr(resp, 'cache_control'):\n"))
+B('h4_content_length_header_deleted', ['C15'], 'R15.b', (CC, _CC_HEAD, "        resp = next()\n        del resp.headers['Content-Length']\n        if hasattr(resp, 'cache_control'):\n"))
+B('h4_content_type_header_stored_through_alias', ['C15'], 'R15.b',
+  (CK, _CK_SAVE, _CK_SAVE + "        hdrs = response.headers\n        hdrs['Content-Type'] = 'text/html'\n"))
+B('h4_headers_cleared', ['C15'], 'R15.b', (CC, _CC_HEAD, "        resp = next()\n        resp.headers.clear()\n        if hasattr(resp, 'cache_control'):\n"))
+B('h4_response_closed', ['C15'], 'R15.b', (GZ, _GZ_VARY, _GZ_VARY + "        resp.close()\n"))
+T('h4_other_header_read_and_set', ['C15'], (CC, _CC_HEAD, "        resp = next()\n        resp.headers.get('Content-Type')\n        if hasattr(resp, 'cache_control'):\n"))
+# the trigger lets the request that carries nothing pass
+B('h4_trigger_inverted', ['C15'], 'R15.b', (PF, "        if not request.args.get(self.get_param_name):\n", "        if request.args.get(self.get_param_name):\n"))
+B('h4_trigger_defaults_to_on', ['C15'], 'R15.b',
+  (PF, "        if not request.args.get(self.get_param_name):\n", "        if request.args.get(self.get_param_name, '1') == '0':\n"))
+B('h4_trigger_membership_inverted', ['C15'], 'R15.b',
+  (PF, "        if not request.args.get(self.get_param_name):\n", "        if self.get_param_name in request.args:\n"))
+T('h4_trigger_through_named_flag', ['C15'],
+  (PF, _PF_TRIGGER, "        wanted = request.args.get(self.get_param_name)\n        if not wanted:\n            return next()\n"))
+T('h4_trigger_with_falsy_default', ['C15'],
+  (PF, "        if not request.args.get(self.get_param_name):\n", "        if not request.args.get(self.get_param_name, ''):\n"))
+# exceptions of next() leave the middleware
+B('h4_finally_returns', ['C15'], 'R15.c', (C, _DUMMY_TRY, "        ret = None\n        try:\n            ret = next()\n        finally:\n            return ret\n"))
+B('h4_stats_finally_returns', ['C15'], 'R15.c',
+  (STATS, "            self.route_hits[_route][resp_status].add(hit)\n        return resp\n", "            self.route_hits[_route][resp_status].add(hit)\n            return resp\n"))
+B('h4_finally_breaks_out', ['C15'], 'R15.c',
+  (C, _DUMMY_TRY, "        ret = None\n        for attempt in (1,):\n            try:\n                ret = next()\n            finally:\n                break\n"))
+B('h4_next_under_suppress', ['C15'], 'R15.c', (C, 'import itertools\n', 'import itertools\nimport contextlib\n'),
+  (C, _DUMMY_TRY, "        ret = None\n        with contextlib.suppress(Exception):\n            ret = next()\n"))
+T('h4_finally_with_inner_loop_break', ['C15'],
+  (C, _DUMMY_TRY, "        try:\n            ret = next()\n        except Exception as e:\n            if self.verbose:\n                print(name, '- uhoh:', repr(e))\n            raise\n"
+                  "        finally:\n            for flag in (self.verbose,):\n                if not flag:\n                    break\n"))
+# gzip: encoding / length only together with the body
+B('h4_gz_encoding_announced_before_size_test', ['C15'], 'R15.d',
+  (GZ, _GZ_SIZE + _GZ_STORES, "        resp.content_encoding = 'gzip'\n" + _GZ_SIZE + "        resp.response = [comp_content]\n        resp.content_length = len(comp_content)\n"))
+B('h4_gz_length_set_before_size_test', ['C15'], 'R15.d',
+  (GZ, _GZ_SIZE + _GZ_STORES, "        resp.content_length = len(comp_content)\n" + _GZ_SIZE + "        resp.response = [comp_content]\n        resp.content_encoding = 'gzip'\n"))
+B('h4_gz_encoding_header_before_size_test', ['C15'], 'R15.d',
+  (GZ, _GZ_SIZE + _GZ_STORES, "        resp.headers['Content-Encoding'] = 'gzip'\n" + _GZ_SIZE + "        resp.response = [comp_content]\n        resp.content_length = len(comp_content)\n"))
+T('h4_gz_stores_reordered', ['C15'], (GZ, _GZ_STORES, "        resp.content_encoding = 'gzip'\n        resp.content_length = len(comp_content)\n        resp.response = [comp_content]\n"))
+T('h4_gz_descriptors_as_headers', ['C15'],
+  (GZ, _GZ_STORES, "        resp.response = [comp_content]\n        resp.headers['Content-Length'] = str(len(comp_content))\n        resp.headers['Content-Encoding'] = 'gzip'\n"))
+# render hooks fill only unset keys (default configuration)
+B('h4_ctx_overwrite_on_by_default', ['C15'], 'R15.h', (CTX, "defaults=None, overwrite=False):", "defaults=None, overwrite=True):"))
+B('h4_ctx_presence_test_dropped', ['C15'], 'R15.h', (CTX, _CTX_GUARD, ""))
+B('h4_ctx_switch_read_the_wrong_way', ['C15'], 'R15.h', (CTX, "                if not self.overwrite and arg in context:\n", "                if self.overwrite and arg in context:\n"))
+B('h4_ctx_key_removed', ['C15'], 'R15.h', (CTX, _CTX_GUARD, "                if not self.overwrite and arg in context:\n                    context.pop(arg)\n"))
+T('h4_ctx_guard_positive_form', ['C15'],
+  (CTX, _CTX_GUARD + _CTX_STORE, "                if self.overwrite or arg not in context:\n                    context[arg] = kwargs.get(arg, self.defaults.get(arg))\n"))
+T('h4_ctx_guard_nested', ['C15'],
+  (CTX, _CTX_GUARD + _CTX_STORE, "                if arg in context:\n                    if not self.overwrite:\n                        continue\n" + _CTX_STORE))
+
+# ------------------------------------------------------------------------------------------------ round 4: deepening C19
+_ST_RESET_TABLE = "        self.route_hits = defaultdict(lambda: defaultdict(RouteStatReservoir))\n"
+_ST_SEED_LOOP = "        for val in (data or []):\n            self.add(val)\n"
+_ST_ROUTES = "    routes = [('/', get_stats_dict, render_basic),\n              POST('/reset', get_and_reset_stats_dict, render_basic)]\n"
+_ST_STATUS_OK = "            resp_status = repr(getattr(resp, 'status_code', resp.__class__.__name__))\n"
+_ST_STATUS_EXC = "            resp_status = repr(getattr(e, 'code', e.__class__.__name__))\n"
+# the count changes only where a value is added
+B('h4_resize_recounts', ['C19'], 'R19.c', (STATS, "        self._data = self._data[:new_size]\n", "        self._data = self._data[:new_size]\n        self._total_count = len(self._data)\n"))
+B('h4_resize_clamps_count', ['C19'], 'R19.c',
+  (STATS, "        self._cap = new_size\n        if new_size", "        self._cap = new_size\n        self._total_count = min(self._total_count, new_size)\n        if new_size"))
+B('h4_iter_resets_count', ['C19'], 'R19.c', (STATS, "        return iter(self._data)\n", "        self._total_count = len(self._data)\n        return iter(self._data)\n"))
+# the constructor: count = size of the initial store, values enter through add()
+B('h4_init_count_starts_at_zero', ['C19'], 'R19.c', (STATS, "        self._total_count = len(container)\n", "        self._total_count = 0\n"))
+B('h4_init_count_of_the_values', ['C19'], 'R19.c', (STATS, "        self._total_count = len(container)\n", "        self._total_count = len(data or [])\n"))
+B('h4_init_extends_store', ['C19'], 'R19.c', (STATS, _ST_SEED_LOOP, "        self._data.extend(data or [])\n"))
+B('h4_init_slice_stores_values', ['C19'], 'R19.c', (STATS, _ST_SEED_LOOP, "        self._data[:0] = data or []\n"))
+B('h4_init_values_as_container', ['C19'], 'R19.c',
+  (STATS, "        if container is None:\n            container = []\n", "        if container is None:\n            container = list(data or [])\n"))
+T('h4_init_count_from_attribute', ['C19'], (STATS, "        self._total_count = len(container)\n", "        self._total_count = len(self._data)\n"))
+T('h4_init_values_named', ['C19'], (STATS, _ST_SEED_LOOP, "        initial = data or []\n        for val in initial:\n            self.add(val)\n"))
+T('h4_init_values_guarded', ['C19'], (STATS, _ST_SEED_LOOP, "        if data:\n            for val in data:\n                self.add(val)\n"))
+# a reservoir per (route, status)
+B('h4_one_reservoir_for_all', ['C19'], 'R19.b',
+  (STATS, _ST_RESET_TABLE, "        shared = RouteStatReservoir()\n        self.route_hits = defaultdict(lambda: defaultdict(lambda: shared))\n"))
+B('h4_one_inner_table_for_all_routes', ['C19'], 'R19.b',
+  (STATS, _ST_RESET_TABLE, "        inner = defaultdict(RouteStatReservoir)\n        self.route_hits = defaultdict(lambda: inner)\n"))
+B('h4_reservoir_kept_on_the_instance', ['C19'], 'R19.b',
+  (STATS, _ST_RESET_TABLE, "        self._spare = RouteStatReservoir()\n        self.route_hits = defaultdict(lambda: defaultdict(lambda: self._spare))\n"))
+T('h4_cell_factories_as_lambdas', ['C19'], (STATS, _ST_RESET_TABLE, "        self.route_hits = defaultdict(lambda: defaultdict(lambda: RouteStatReservoir()))\n"))
+T('h4_cell_factory_partial', ['C19'], (STATS, 'import datetime\n', 'import datetime\nfrom functools import partial\n'),
+  (STATS, _ST_RESET_TABLE, "        self.route_hits = defaultdict(partial(defaultdict, RouteStatReservoir))\n"))
+# reading the statistics changes nothing
+B('h4_report_resets', ['C19'], 'R19.b',
+  (STATS, "    utcnow = datetime.datetime.utcnow().isoformat()\n    return {'route_stats'", "    utcnow = datetime.datetime.utcnow().isoformat()\n    stats_mw.reset()\n    return {'route_stats'"))
+B('h4_report_pops_what_it_renders', ['C19'], 'R19.b',
+  (STATS, "    return {'route_stats': dict([(rt.pattern, _get_route_stats(rh)) for rt, rh\n                                 in rt_hits.items() if rh]),",
+          "    return {'route_stats': dict([(rt.pattern, _get_route_stats(rt_hits.pop(rt))) for rt in list(rt_hits)]),"))
+B('h4_summary_resizes_the_reservoir', ['C19'], 'R19.b',
+  (STATS, "        durs = [round(h.duration * 1000, 2) for h in hits]\n", "        hits.resize(1024)\n        durs = [round(h.duration * 1000, 2) for h in hits]\n"))
+B('h4_summary_clears_the_route_table', ['C19'], 'R19.b', (STATS, "        cur.update(desc_dict)\n", "        cur.update(desc_dict)\n    rt_hits.clear()\n"))
+B('h4_summary_adds_a_marker_hit', ['C19'], 'R19.b',
+  (STATS, "        durs = [round(h.duration * 1000, 2) for h in hits]\n", "        durs = [round(h.duration * 1000, 2) for h in hits]\n        hits.add(Hit(0.0, '', '', status, 0.0, ''))\n"))
+B('h4_report_method_resets', ['C19'], 'R19.b',
+  *_mw_methods(reset_method=_ST_MW_RESET_OK.replace("        ret = self.get_stats_dict()\n", "        ret = self.get_stats_dict()\n")
+               + "\n    def peek(self):\n        return self.get_stats_dict()\n",
+               get_ep='    mw = _get_stats_mw(_application)\n    ret = mw.get_stats_dict()\n    mw.reset()\n    return ret\n'))
+# the routing table of the stats application
+B('h4_root_route_resets', ['C19'], 'R19.b', (STATS, "    routes = [('/', get_stats_dict, render_basic),", "    routes = [('/', get_and_reset_stats_dict, render_basic),"))
+B('h4_reset_route_only_reports', ['C19'], 'R19.b', (STATS, "POST('/reset', get_and_reset_stats_dict, render_basic)", "POST('/reset', get_stats_dict, render_basic)"))
+B('h4_reset_route_answers_get', ['C19'], 'R19.b', (STATS, "from ..route import POST\n", "from ..route import POST, GET\n"),
+  (STATS, "POST('/reset', get_and_reset_stats_dict, render_basic)", "GET('/reset', get_and_reset_stats_dict, render_basic)"))
+B('h4_reset_route_any_method', ['C19'], 'R19.b', (STATS, "POST('/reset', get_and_reset_stats_dict, render_basic)", "('/reset', get_and_reset_stats_dict, render_basic)"))
+T('h4_routes_named_and_keyworded', ['C19'],
+  (STATS, _ST_ROUTES, "    report_route = ('/', get_stats_dict, render_basic)\n    reset_route = POST('/reset', endpoint=get_and_reset_stats_dict, render=render_basic)\n"
+                      "    routes = [report_route, reset_route]\n"))
+T('h4_routes_inline', ['C19'],
+  (STATS, _ST_ROUTES + "    app = Application(routes)\n",
+          "    app = Application([('/', get_stats_dict, render_basic),\n                       POST('/reset', get_and_reset_stats_dict, render_basic)])\n"))
+# the status key is the code itself
+B('h4_status_key_rounded_to_class', ['C19'], 'R19.a', (STATS, _ST_STATUS_OK, "            resp_status = repr(getattr(resp, 'status_code', 200) // 100 * 100)\n"))
+B('h4_status_key_first_digit_of_exception_code', ['C19'], 'R19.a', (STATS, _ST_STATUS_EXC, "            resp_status = repr(str(getattr(e, 'code', e.__class__.__name__))[:1])\n"))
+T('h4_status_key_percent_r', ['C19'], (STATS, _ST_STATUS_OK, "            resp_status = '%r' % (getattr(resp, 'status_code', resp.__class__.__name__),)\n"))
+T('h4_status_key_named_code', ['C19'],
+  (STATS, _ST_STATUS_OK, "            code = getattr(resp, 'status_code', resp.__class__.__name__)\n            resp_status = repr(code)\n"))
+
+# ------------------------------------------------------------------------------------------------ round 4: R15.i parsing of request data is contained
+FORM = 'clastic/middleware/form.py'
+_CK_UNSER = '''        try:
+            return super(cls, JSONCookie).unserialize(string, secret_key)
+        except Exception:
+            # malformed client data (e.g., a signature that is not
+            # valid base64): treat like any other invalid cookie
+            return cls((), secret_key, False)
+'''
+_FORM_GET = "            kwargs[p_name] = request.form.get(p_name, None, p_type)\n"
+_URL_GET = "            kwargs[p_name] = request.args.get(p_name, None, p_type)\n"
+B('h4_cookie_parser_handler_reraises', ['C15'], 'R15.i',
+  (CK, _CK_UNSER, "        try:\n            return super(cls, JSONCookie).unserialize(string, secret_key)\n        except Exception:\n            raise\n"))
+B('h4_cookie_parser_handler_too_narrow', ['C15'], 'R15.i',
+  (CK, _CK_UNSER, "        try:\n            return super(cls, JSONCookie).unserialize(string, secret_key)\n        except TypeError:\n            return cls((), secret_key, False)\n"))
+B('h4_cookie_parser_result_outside_try', ['C15'], 'R15.i',
+  (CK, _CK_UNSER, "        try:\n            string = string.strip()\n        except Exception:\n            return cls((), secret_key, False)\n"
+                  "        return super(cls, JSONCookie).unserialize(string, secret_key)\n"))
+B('h4_form_value_converted_bare', ['C15'], 'R15.i',
+  (FORM, _FORM_GET, "            raw = request.form.get(p_name)\n            kwargs[p_name] = p_type(raw) if raw is not None else None\n"))
+B('h4_query_value_int_bare', ['C15'], 'R15.i',
+  (URL, _URL_GET, "            kwargs[p_name] = request.args.get(p_name, None, p_type)\n        kwargs['_page'] = int(request.args.get('page', '1'))\n        kwargs.pop('_page')\n"))
+B('h4_form_json_body_loaded_bare', ['C15'], 'R15.i', (FORM, 'import sys\n', 'import sys\nimport json\n'),
+  (FORM, "        kwargs = {}\n        for p_name, p_type in self.params.items():\n            kwargs[p_name] = request.form.get",
+         "        kwargs = {}\n        extra = json.loads(request.environ.get('HTTP_X_PARAMS', '{}'))\n        for p_name, p_type in self.params.items():\n            kwargs[p_name] = request.form.get"))
+T('h4_cookie_parser_handler_tuple', ['C15'],
+  (CK, _CK_UNSER, "        try:\n            loaded = super(cls, JSONCookie).unserialize(string, secret_key)\n        except (ValueError, TypeError, Exception):\n"
+                  "            return cls((), secret_key, False)\n        return loaded\n"))
+T('h4_form_value_converted_guarded', ['C15'],
+  (FORM, _FORM_GET, "            raw = request.form.get(p_name)\n            try:\n                kwargs[p_name] = p_type(raw) if raw is not None else None\n"
+                    "            except (ValueError, TypeError):\n                kwargs[p_name] = None\n"))
+# C19 R19.d: the list the endpoints search is the application's own copy
+APP = 'clastic/application.py'
+_APP_MWS = "        self.middlewares = list(middlewares or [])\n"
+B('h4_app_keeps_callers_list', ['C19'], 'R19.d', (APP, _APP_MWS, "        self.middlewares = middlewares if middlewares is not None else []\n"))
+B('h4_app_keeps_callers_list_named', ['C19'], 'R19.d', (APP, _APP_MWS, "        mws = middlewares or []\n        self.middlewares = mws\n"))
+T('h4_app_copies_list_conditionally', ['C19'], (APP, _APP_MWS, "        self.middlewares = list(middlewares) if middlewares else []\n"))
+T('h4_app_copies_list_by_slice', ['C19'], (APP, _APP_MWS, "        self.middlewares = (middlewares or [])[:]\n"))
+T('h4_app_copies_list_by_comprehension', ['C19'], (APP, _APP_MWS, "        given = middlewares or []\n        self.middlewares = [mw for mw in given]\n"))
+
+# ------------------------------------------------------------------------------------------------ round 4: more of C19 / C15
+_ST_REPORT_COMP = "in rt_hits.items() if rh]),"
+# counting starts from zero: the installed table is empty
+B('h4_reset_carries_old_counts_over', ['C19'], 'R19.b',
+  (STATS, _ST_RESET_TABLE, "        old = getattr(self, 'route_hits', {})\n" + _ST_RESET_TABLE + "        self.route_hits.update(old)\n"))
+B('h4_reset_builds_table_from_old', ['C19'], 'R19.b',
+  (STATS, _ST_RESET_TABLE, "        old = getattr(self, 'route_hits', {})\n        self.route_hits = defaultdict(lambda: defaultdict(RouteStatReservoir), old)\n"))
+T('h4_reset_table_named', ['C19'], (STATS, _ST_RESET_TABLE, "        table = defaultdict(lambda: defaultdict(RouteStatReservoir))\n        self.route_hits = table\n"))
+# the cell exists when the hit is filed
+B('h4_table_plain_dict', ['C19'], 'R19.a', (STATS, _ST_RESET_TABLE, "        self.route_hits = {}\n"))
+B('h4_table_one_level_only', ['C19'], 'R19.a', (STATS, _ST_RESET_TABLE, "        self.route_hits = defaultdict(dict)\n"))
+# the report covers the table
+B('h4_report_keeps_the_empty_routes', ['C19'], 'R19.b', (STATS, _ST_REPORT_COMP, "in rt_hits.items() if not rh]),"))
+B('h4_report_first_route_only', ['C19'], 'R19.b', (STATS, _ST_REPORT_COMP, "in list(rt_hits.items())[:1] if rh]),"))
+B('h4_report_leaves_out_a_route', ['C19'], 'R19.b', (STATS, _ST_REPORT_COMP, "in rt_hits.items() if rt.pattern != '/']),"))
+B('h4_summary_skips_server_errors', ['C19'], 'R19.b',
+  (STATS, "        ret[status] = cur = {}\n", "        if status.startswith('5'):\n            continue\n        ret[status] = cur = {}\n"))
+B('h4_summary_stops_after_first_status', ['C19'], 'R19.b', (STATS, "        cur.update(desc_dict)\n", "        cur.update(desc_dict)\n        break\n"))
+T('h4_report_sorted_routes', ['C19'], (STATS, _ST_REPORT_COMP, "in sorted(rt_hits.items(), key=lambda kv: kv[0].pattern) if rh]),"))
+T('h4_summary_skips_empty', ['C19'],
+  (STATS, "        ret[status] = cur = {}\n", "        if not hits:\n            continue\n        ret[status] = cur = {}\n"))
+# render context: several keys at once
+B('h4_ctx_update_with_defaults', ['C15'], 'R15.h',
+  (CTX, "            desired_args = self.required + list(self.defaults.keys())\n", "            context.update(self.defaults)\n            desired_args = self.required + list(self.defaults.keys())\n"))
+T('h4_ctx_update_unset_only', ['C15'],
+  (CTX, "            desired_args = self.required + list(self.defaults.keys())\n",
+        "            context.update((k, v) for k, v in () if k not in context)\n            desired_args = self.required + list(self.defaults.keys())\n"))
+T('h4_ctx_update_under_switch', ['C15'],
+  (CTX, "            desired_args = self.required + list(self.defaults.keys())\n",
+        "            if self.overwrite:\n                context.update({})\n            desired_args = self.required + list(self.defaults.keys())\n"))
